@@ -27,6 +27,11 @@ ANCHORS = [
 ]
 
 
+def cache_key(args, kwargs):
+    """str and bytes spellings of one text are different keys (as for functools.lru_cache(typed=False) they are anyway)."""
+    return (tuple((type(a).__name__, a) for a in args), tuple(sorted((k, type(v).__name__, v) for k, v in kwargs.items())))
+
+
 class CountingCache:
     """Wraps a cache policy; records hits / misses / evictions."""
 
@@ -37,18 +42,20 @@ class CountingCache:
         self.order = []
 
     def __call__(self, fn):
-        def cached(query, schema):
-            k = (type(query).__name__, query)
+        def cached(*args, **kwargs):
+            # nothing is assumed about the decorated function but what functools.lru_cache assumes: hashable arguments
+            k = cache_key(args, kwargs)
             if k in self.store:
                 self.hits += 1
-                if self.store[k][1]:
+                v = self.store[k]
+                if isinstance(v, tuple) and len(v) == 2 and v[1]:
                     self.invalid_hits += 1
                 if self.policy == "lru":
                     self.order.remove(k)
                     self.order.append(k)
                 return self.store[k]
             self.misses += 1
-            v = fn(query, schema)
+            v = fn(*args, **kwargs)
             self.store[k] = v
             self.order.append(k)
             if self.capacity is not None and len(self.store) > self.capacity:
@@ -73,8 +80,18 @@ def engines_under_test(rng):
     ]
 
 
-async def build(s, sdl, deco, counting):
+async def annotating_error_coercer(exception, error):
+    """Written like the documentation's example: it writes into the error (and its extensions) it was handed."""
+    if isinstance(error.get("extensions"), dict):
+        error["extensions"]["seen"] = error["extensions"].get("seen", 0) + 1
+    error["annotated"] = error.get("annotated", 0) + 1
+    return error
+
+
+async def build(s, sdl, deco, counting, coercer=None):
     opts = {}
+    if coercer is not None:
+        opts["error_coercer"] = coercer
     if counting is not None:
         opts["query_cache_decorator"] = counting
     elif deco == "none":
@@ -97,20 +114,30 @@ def gen_pool(rng, s):
             extra.append(it2)
     pool.extend(extra)
     rng.shuffle(pool)
-    return pool[:10]
+    pool = pool[:10]
+    # Boolean-flipped twins: the same text (so the same cache entry) with every Boolean variable negated -- what anything
+    # memoised on the cached document about @skip/@include outcomes would get wrong
+    for it in list(pool):
+        if it.kind in ("exec", "exec-bytes") and any(isinstance(v, bool) for v in (it.variables or {}).values()) and rng.random() < 0.6:
+            pool.append(c15.Item(it.text, it.op_name, {k: (not v if isinstance(v, bool) else v) for k, v in it.variables.items()},
+                                 it.wseed, it.faults, it.use_root, it.root_t, it.kind))
+    return pool[:16]
 
 
 async def run_case(ctx, rng, index):
     st = ctx.stats
-    s = smodel.gen_schema(rng, smodel.GenOpts(n_objects=(2, 4), fields=(2, 4), p_mutation=0.3))
+    s = smodel.gen_schema(rng, smodel.GenOpts(n_objects=(2, 4), fields=(2, 4), p_mutation=0.3, p_schema_pass=0.15))
     sdl = smodel.print_sdl(s)
     bundles = []
     try:
-        ref = await build(s, sdl, "none", None)
+        coercer = annotating_error_coercer if rng.random() < 0.35 else None
+        if coercer:
+            st.inc("cases_with_annotating_error_coercer")
+        ref = await build(s, sdl, "none", None, coercer)
         bundles.append(ref)
         under = []
         for name, deco, counting in engines_under_test(rng):
-            b = await build(s, sdl, deco, counting)
+            b = await build(s, sdl, deco, counting, coercer)
             bundles.append(b)
             under.append((name, b, counting))
         for _ in range(SEQS_PER_SCHEMA):
@@ -130,6 +157,32 @@ async def run_case(ctx, rng, index):
             except Exception as e:  # noqa
                 ctx.violation("execute-raised", "reference engine: %r" % e, case)
                 continue
+            # a request generated VALID (document, operation name, variables) that the cache-less engine answers with
+            # 'data: null' without running anything, although the specification's answer has data: refused because of what
+            # came before it (this process only ever validated other documents in between)
+            for pos, idx in enumerate(seq):
+                it = pool[idx]
+                req = getattr(it, "req", None)
+                if req is not None and expected[pos][0] == "null" and expected[pos][1] and not getattr(it, "mutate_args", False):
+                    try:
+                        w_ref = c15.world_mod.World(s, it.wseed, it.faults)
+                        rr = X.run_reference(s, req, w_ref)
+                    except refexec.RefBug:
+                        continue
+                    st.inc("null_data_answers_checked_against_reference")
+                    if not rr.request_error and rr.data is not None:
+                        ctx.violation("valid-request-refused", "cache-less engine, position %d request %d: %s" % (pos, idx, str(expected[pos])[:300]), case)
+                        break
+            # "repeating a request gives the same response ... earlier requests (failed or not) leave no trace in later
+            # ones": the cache-less reference engine itself must answer a request identically wherever it stands in the
+            # sequence (state kept outside the cache -- in a validation rule, a module -- would show here)
+            first_at = {}
+            for pos, idx in enumerate(seq):
+                if idx in first_at and expected[pos] != expected[first_at[idx]]:
+                    ctx.violation("response-depends-on-history", "cache-less engine: request %d (%s) answered %s at position %d but %s at position %d" % (
+                        idx, pool[idx].kind, str(expected[first_at[idx]])[:250], first_at[idx], str(expected[pos])[:250], pos), case)
+                    break
+                first_at.setdefault(idx, pos)
             for name, b, counting in under:
                 for pos, idx in enumerate(seq):
                     try:
@@ -144,7 +197,7 @@ async def run_case(ctx, rng, index):
                         break
             # brand-new engine for a sample of positions
             for pos in rng.sample(range(n), min(n, 2 if ctx.tier == "quick" else 4)):
-                fb = await build(s, sdl, "none", None)
+                fb = await build(s, sdl, "none", None, coercer)
                 try:
                     got = c15.norm(await pool[seq[pos]].coro(fb.engine, s, None, None))
                     st.inc("fresh_engine_positions")
